@@ -332,7 +332,9 @@ func (r *reader) Delete(rs *segment.RewriteSegment) (*reader, error) {
 		return nil, err
 	}
 
-	return r, nil
+	// always a fresh reader: after a concurrent rollover r might be the (closed) reader of
+	// the former writer, which would keep behaving like the head of the log
+	return &reader{segment: r.segment, params: r.params, version: r.version}, nil
 }
 
 func (r *reader) getIndexNow() (indexer, error) {
